@@ -825,7 +825,9 @@ class EEA:
                             got[(c, site)] = path
                     nxt[(exc, site)] = path
             remaining = nxt
-            handler_inputs.append(got)
+            # a handler for specific, tracked classes that no exception of the body can match is unreachable
+            broad = any(c in S.BASE_ONLY or c in ("builtins.Exception", "builtins.BaseException") for c in classes)
+            handler_inputs.append(got if (got or broad) else None)
         esc = self.merge(esc, remaining)
         # state inside handlers: facts of try entry (body may have been interrupted anywhere)
         st_h_base = self._kill_mutations(ast.Module(body=s.body, type_ignores=[]), self._kill_on_await(ast.Module(body=s.body, type_ignores=[]), st))
@@ -839,6 +841,8 @@ class EEA:
             frh = frh.unbind(nm)
         st_h_base = self._kill_names(assigned, st_h_base.replace(fr=frh))
         for h, got in zip(s.handlers, handler_inputs):
+            if got is None:
+                continue
             st_h = st_h_base.replace(caught=got, handler_var=h.name)
             eh, oh = self.block(h.body, st_h)
             esc = self.merge(esc, eh)
@@ -1148,6 +1152,10 @@ class EEA:
             if ("in", key_txt, base_txt) in st.facts:
                 self.discharged.append({"site": self.site(fr, e, "subscript").loc(), "what": f"{base_txt}[{key_txt}]", "by": f"guard `{key_txt} in {base_txt}` dominates with no suspension/removal in between"})
                 return {}
+            if ("allfields", base_txt) in st.facts and isinstance(e.slice, ast.Name) and self._iterates_schema_fields(e.slice):
+                self.assumptions_used.add("A3")
+                self.discharged.append({"site": self.site(fr, e, "subscript").loc(), "what": f"{base_txt}[{key_txt}]", "by": "the dumped object is of the annotated class whose constructor stores every schema field (A3): the mapping has every field of self.fields"})
+                return {}
             if bt in ("Any", ""):
                 # class-level generic alias etc. (e.g. Callable[...] in annotations) is never evaluated here
                 if not is_map:
@@ -1164,6 +1172,18 @@ class EEA:
             return {}
         self.unknown_calls.setdefault(f"subscript on {bt or '?'}: {base_txt}", f"{fr.module.relpath}:{e.lineno}")
         return {}
+
+    def _iterates_schema_fields(self, name: ast.Name) -> bool:
+        cur = self.prog.parents.get(name)
+        while cur is not None and not isinstance(cur, (ast.FunctionDef, ast.AsyncFunctionDef, ast.Module)):
+            gens = cur.generators if isinstance(cur, (ast.ListComp, ast.SetComp, ast.DictComp, ast.GeneratorExp)) else []
+            for g in gens:
+                if isinstance(g.target, ast.Name) and g.target.id == name.id and norm(g.iter) == "self.fields":
+                    return True
+            if isinstance(cur, ast.For) and isinstance(cur.target, ast.Name) and cur.target.id == name.id and norm(cur.iter) == "self.fields":
+                return True
+            cur = self.prog.parents.get(cur)
+        return False
 
     ORDER_SAFE = ("builtins.int", "builtins.float", "builtins.str", "builtins.bool", "int", "float", "str", "bool", "Literal[")
 
@@ -1673,11 +1693,21 @@ class EEA:
         if schema is None:
             raise AnalysisError(f"Schema.dump on a receiver that is not a repository schema at {fr.module.relpath}:{e.lineno}")
         out: dict = {}
+        # A3: an object of the annotated class whose constructor stores every schema field dumps to a mapping with all fields
+        complete = False
+        if e.args:
+            oc = self._repo_class_of_type(self.prog.type_of(fr.module, e.args[0]))
+            if oc is not None:
+                attrs = set(self.I.stored_params(oc).values())
+                names = set(self.schema_field_names(schema) or [])
+                complete = bool(names) and names <= attrs
         for c in schema.repo_mro():
             for fl in c.methods.values():
                 for f in fl:
                     if any(d.split("(")[0].split(".")[-1] in ("post_dump", "pre_dump") for d in f.decorator_names):
-                        sub = self.escapes(Frame(self.I.make_callee(f, schema), fr.V))
+                        pp = f.positional_params
+                        facts = frozenset([("allfields", pp[1])]) if complete and len(pp) > 1 else frozenset()
+                        sub = self.escapes(Frame(self.I.make_callee(f, schema), fr.V, (), frozenset(), facts))
                         out = self.merge(out, self._through(sub, fr))
             for nm, val in c.attr_order:
                 fe = self.field_expr(c.module, val)
